@@ -38,6 +38,30 @@ fn main() {
         }
         std::process::exit(0);
     }
+    if args[1] == "debug-pow" {
+        use clarabel::verif::PowerCone;
+        let a: f64 = args[2].parse().unwrap();
+        let s: Vec<f64> = args[3..6].iter().map(|x| x.parse().unwrap()).collect();
+        let k = PowerCone::<f64>::new(a);
+        let g = k.verif_gradient_primal(&s);
+        println!("g_impl = {:?}", g);
+        let mut y: Vec<f64> = g.iter().map(|v| -v).collect();
+        for it in 0..30 {
+            let gr = cvlib::dual::gradient(&|x| cvlib::dual::fstar_pow(x, a), &y);
+            let r: Vec<f64> = (0..3).map(|i| gr[i] + s[i]).collect();
+            println!("it {it} y={:?} resid={:?}", y, r);
+            let h = cvlib::dual::hessian(&|x| cvlib::dual::fstar_pow(x, a), &y);
+            // solve h d = -r
+            let det = |m: &Vec<Vec<f64>>| m[0][0]*(m[1][1]*m[2][2]-m[1][2]*m[2][1]) - m[0][1]*(m[1][0]*m[2][2]-m[1][2]*m[2][0]) + m[0][2]*(m[1][0]*m[2][1]-m[1][1]*m[2][0]);
+            let dd = det(&h);
+            let mut d = vec![0.0; 3];
+            for c in 0..3 { let mut m = h.clone(); for i in 0..3 { m[i][c] = -r[i]; } d[c] = det(&m)/dd; }
+            let mut t = 1.0;
+            loop { let yn: Vec<f64> = (0..3).map(|i| y[i]+t*d[i]).collect(); let phi=(yn[0]/a).powf(2.0*a)*(yn[1]/(1.0-a)).powf(2.0-2.0*a); if yn[0]>0.0&&yn[1]>0.0&&phi>yn[2]*yn[2] { y=yn; break;} t*=0.5; if t<1e-10 {break;} }
+            if r.iter().all(|v| v.abs()<1e-14) { break; }
+        }
+        std::process::exit(0);
+    }
     let id = args[1].clone();
     let mut tier = std::env::var("VERIF_TIER").unwrap_or_else(|_| "quick".into());
     let mut seed: u64 = std::env::var("VERIF_SEED").ok().and_then(|s| s.parse::<i64>().ok()).map(|v| v as u64).unwrap_or(0);
